@@ -22,7 +22,9 @@ pub fn def() -> PropertyDef {
         rule: "bytes: random bytes / random UTF-8; soup: token soups over the lexer vocabulary with extreme literals (nesting <= 64); \
                corpus: token- and byte-level mutations of every source under /repo/lib and /repo/docs/spell (with their import context); \
                grammar: grammar-directed parse-valid terms incl. every metadata form, with and without a Builtin prelude; e1: generated \
-               programs with an injected sort/type/arity error; multifile: a mutated text as imported provider and as .zyi companion. Monitor: \
+               programs with an injected sort/type/arity error; multifile: a mutated text as imported provider and as .zyi companion; trivia: readable programs decorated with hostile lexical \
+               trivia (multi-line block comments whose continuation lines start with Unicode white space, tabs, form feeds, CR, BOM, \
+               look-alike delimiters, missing final newline) with unchanged code tokens. Monitor: \
                catch_unwind around CompilerSession::analyze and the CLI's DiagnosticRenderer, span-in-file check of every report, and the real \
                `zydeco check` out of process for every suspicion plus a seeded sample (exit status in {0,1}, CPU budget). distinct = input hash; \
                non-trivial = has >= 2 tokens and is not byte-identical to a corpus file.",
@@ -35,7 +37,7 @@ pub fn def() -> PropertyDef {
     }
 }
 
-const GENS: &[&str] = &["bytes", "soup", "corpus", "grammar", "e1", "multifile"];
+const GENS: &[&str] = &["bytes", "soup", "corpus", "grammar", "e1", "multifile", "trivia"];
 
 fn generators(cfg: &Cfg) -> Vec<Generator> {
     let corpus_len = e2::corpus().len() as u64;
@@ -47,6 +49,7 @@ fn generators(cfg: &Cfg) -> Vec<Generator> {
         Generator { name: "grammar", total: cfg.tier.pick(8_000, 500_000), run: run_grammar, case_cpu_limit_s: 60 },
         Generator { name: "e1", total: cfg.tier.pick(1_500, 60_000), run: run_e1, case_cpu_limit_s: 60 },
         Generator { name: "multifile", total: cfg.tier.pick(2_000, 100_000), run: run_multifile, case_cpu_limit_s: 60 },
+        Generator { name: "trivia", total: cfg.tier.pick(4_000, 250_000), run: run_trivia, case_cpu_limit_s: 60 },
     ]
 }
 
@@ -106,6 +109,43 @@ fn make_input(generator: &str, cfg: &Cfg, index: u64) -> Input {
             let (text, _, _) = e1::print::program_text_mut(&program, &style, cfg.seed ^ index, target);
             // additionally a token-level mutation half of the time (well-formed syntax, ill-formed meaning vs. broken syntax)
             let text = if rng.chance(1, 2) { mutate::mutate_tokens(&text, &mut rng, 1) } else { text };
+            Input::Overlay(Sources::single(text))
+        }
+        | "trivia" => {
+            // a readable program (small repository source, grammar term, generated core program) decorated with hostile
+            // lexical trivia: the code tokens are unchanged, so the later phases are reached with unusual comment and
+            // white-space content in the capture, span and rendering paths
+            let base = match rng.below(4) {
+                | 0 => {
+                    let small: Vec<(std::path::PathBuf, String)> = e2::corpus().into_iter().filter(|(_, t)| t.len() <= 4_000).collect();
+                    small[rng.below(small.len())].1.clone()
+                }
+                | 1 => {
+                    let directives = rng.chance(1, 2);
+                    e2::grammar::source(&mut rng, directives)
+                }
+                | 2 => format!("{}{}", MiniPrelude::core().text(), e2::grammar::source(&mut rng, false)),
+                | _ => {
+                    let mut grng = Rng::for_case(cfg.seed, "C10/trivia/e1", index);
+                    let mut gcfg = e1::generate::GenCfg::default_for(&mut grng);
+                    gcfg.size = 40 + grng.below(80) as i64;
+                    gcfg.statements = 1 + grng.below(3);
+                    let program = e1::generate::Gen::new(grng, gcfg).gen_program();
+                    e1::print::program_text(&program, &e1::print::Style::plain(), index)
+                }
+            };
+            let n = 1 + rng.below(5);
+            let mut text = e2::hostile::with_comments(&base, &mut rng, n);
+            if rng.chance(1, 3) {
+                text = e2::hostile::skip_character_spacing(&text, &mut rng);
+            }
+            if rng.chance(1, 4) {
+                text = e2::hostile::decorate_file(&text, &mut rng);
+            }
+            // sometimes with a type error behind the trivia, so that diagnostics are rendered over it
+            if rng.chance(1, 4) {
+                text = mutate::mutate_tokens(&text, &mut rng, 1);
+            }
             Input::Overlay(Sources::single(text))
         }
         | _ => {
@@ -341,6 +381,9 @@ fn run_e1(cfg: &Cfg, index: u64, stats: &mut Stats) {
 }
 fn run_multifile(cfg: &Cfg, index: u64, stats: &mut Stats) {
     run_case("multifile", cfg, index, stats)
+}
+fn run_trivia(cfg: &Cfg, index: u64, stats: &mut Stats) {
+    run_case("trivia", cfg, index, stats)
 }
 
 /// A shard died or ran out of CPU on a case: decide by running the real CLI on the same input.
